@@ -1,5 +1,5 @@
 #!/bin/bash
-# parallel copy: try2.sh <seeded name> <property id> [tier]
+# development aid (not used by any registered command): needs the scratch copy /tmp/verif2 + worktree /tmp/repo2 described in DESIGN.md §9; try2.sh <seeded name> <property id> [tier]
 NAME=$1; PID=$2; TIER=${3:-quick}
 cd /tmp/verif2
 export VERIF_REPO=/tmp/repo2
